@@ -17,10 +17,10 @@ import (
 	"context"
 	"io"
 	"net"
+	"time"
 
 	"github.com/honeytrap/honeytrap/director"
 	"github.com/honeytrap/honeytrap/event"
-	"github.com/honeytrap/honeytrap/listener"
 	"github.com/honeytrap/honeytrap/pushers"
 )
 
@@ -53,8 +53,46 @@ func (s *copyService) SetChannel(c pushers.Channel) {
 
 func (s *copyService) Handle(ctx context.Context, conn net.Conn) error {
 	defer conn.Close()
-	switch conn.(type) {
-	case *listener.DummyUDPConn:
+	// the server hands over its timeout wrapper, never the accepted connection itself:
+	// tell datagram from stream by the address, not by the concrete connection type
+	switch conn.LocalAddr().(type) {
+	case *net.UDPAddr:
+		defer s.c.Send(event.New(
+			EventOptions,
+			event.Category("copy"),
+			event.Type("udp"),
+			event.SourceAddr(conn.RemoteAddr()),
+			event.DestinationAddr(conn.LocalAddr()),
+		))
+
+		// one datagram in, one reply out (a datagram connection never reports EOF)
+		buff := make([]byte, 65535)
+
+		n, err := conn.Read(buff)
+		if err != nil {
+			return err
+		}
+
+		conn2, err := s.d.Dial(conn)
+		if err != nil {
+			return err
+		}
+
+		defer conn2.Close()
+
+		if _, err = conn2.Write(buff[:n]); err != nil {
+			return err
+		}
+
+		conn2.SetReadDeadline(time.Now().Add(30 * time.Second))
+
+		if n, err = conn2.Read(buff); err != nil {
+			return err
+		}
+
+		_, err = conn.Write(buff[:n])
+		return err
+	case *net.TCPAddr:
 		defer s.c.Send(event.New(
 			EventOptions,
 			event.Category("copy"),
@@ -70,27 +108,13 @@ func (s *copyService) Handle(ctx context.Context, conn net.Conn) error {
 
 		defer conn2.Close()
 
-		go io.Copy(conn2, conn)
-		_, err = io.Copy(conn, conn2)
-
-		return err
-	case *net.TCPConn:
-		defer s.c.Send(event.New(
-			EventOptions,
-			event.Category("copy"),
-			event.Type("udp"),
-			event.SourceAddr(conn.RemoteAddr()),
-			event.DestinationAddr(conn.LocalAddr()),
-		))
-
-		conn2, err := s.d.Dial(conn)
-		if err != nil {
-			return err
-		}
-
-		defer conn2.Close()
-
-		go io.Copy(conn2, conn)
+		go func() {
+			io.Copy(conn2, conn)
+			// the client is done: let the backend see end of stream
+			if tc, ok := conn2.(*net.TCPConn); ok {
+				tc.CloseWrite()
+			}
+		}()
 		_, err = io.Copy(conn, conn2)
 		return err
 	default:
